@@ -1,14 +1,14 @@
 #!/bin/bash
 # tools/verify_seed.sh <dir-with patch.diff + demo *.rs>   confirm a candidate seeded change in a scratch worktree:
 #  (1) the patch applies to /repo HEAD, (2) the repository's own suite stays green with it,
-#  (3) the demonstration fails with the patch and passes without it.  Prints one summary line.
+#  (3) the demonstration fails with the patch and passes without it.  Prints one summary line.  env W=<worktree>, DEMO_FLAGS=--release
 set -u
-D="$(cd "$1" && pwd)"; W=/tmp/vp-seedverify
+D="$(cd "$1" && pwd)"; W="${W:-/tmp/vp-seedverify}"
 [ -d "$W" ] || git -C /repo worktree add --detach "$W" HEAD -q
 git -C "$W" checkout -q --detach "$(git -C /repo rev-parse HEAD)"; git -C "$W" checkout -q -- .; git -C "$W" clean -qfd -e target
 demo=$(ls "$D"/*.rs | head -1); name=$(basename "$demo" .rs | tr '-' '_')
 mkdir -p "$W/tests"; cp "$demo" "$W/tests/$name.rs"
-run_demo() { (cd "$W" && cargo test --offline --features curve25519,argon2 --test "$name" 2>&1 | grep -E "^test result|error(\[|:)" | head -3 | tr '\n' ' '); }
+run_demo() { (cd "$W" && cargo test --offline ${DEMO_FLAGS:-} --features curve25519,argon2 --test "$name" 2>&1 | grep -E "^test result|error(\[|:)" | head -3 | tr '\n' ' '); }
 without=$(run_demo)
 git -C "$W" apply "$D/patch.diff" || { echo "$(basename "$D"): APPLY-FAILED"; exit 1; }
 with=$(run_demo)
